@@ -39,7 +39,8 @@ def support(m, meta):
                 got = f"raised {type(e).__name__}: {e}"
             if got != exp:
                 bad.append(("ITerm2Image.is_supported", (name, version), got, "expected", exp))
-            for reply in (None, b"", b"\x1b_Gi=31;OK\x1b\\\x1b[?62;c", b"\x1b_Gi=31;ENOENT\x1b\\\x1b[?62;c", b"\x1b[?62;c"):
+            # (a terminal that answers the graphics query but not DA1 leaves a reply without the trailing "c": still an answer)
+            for reply in (None, b"", b"\x1b_Gi=31;OK\x1b\\\x1b[?62;c", b"\x1b_Gi=31;ENOENT\x1b\\\x1b[?62;c", b"\x1b[?62;c", b"\x1b_Gi=31;OK\x1b\\"):
                 K.get_terminal_name_version = lambda: (name, version)
                 K.query_terminal = lambda *a, **k: reply
                 K.KittyImage._supported = None
